@@ -1,6 +1,7 @@
 package main
 
 import (
+	"encoding/json"
 	"fmt"
 	"os"
 	"path/filepath"
@@ -51,7 +52,7 @@ func init() {
 func selftestDeterminism() int {
 	fails := 0
 	h := buildChanHarness("C19")
-	for _, prop := range []string{"C19", "C20"} {
+	for _, prop := range []string{"C19", "C20", "C16"} {
 		for _, drv := range []string{h.driver, h.driver21} {
 			var ref string
 			n := 0
@@ -76,6 +77,32 @@ func selftestDeterminism() int {
 		}
 	}
 	cleanup()
+	// seqsim: the same shapes generated, derived, built and run twice (two driver processes):
+	// identical results, including the counters of the map iteration seam
+	for _, prop := range []string{"C16", "C18"} {
+		scratch := scratchDir("seqdet")
+		repo := filepath.Join(scratch, "repo")
+		copyRepo(repo)
+		gd := filepath.Join(scratch, "goderive")
+		buildGoderive(repo, gd)
+		idxs := make([]int, 40)
+		for i := range idxs {
+			idxs[i] = i
+		}
+		var outs [2]string
+		for rep := 0; rep < 2; rep++ {
+			rs, vs, _, _ := seqRunShapes(prop, 13, idxs, filepath.Join(scratch, fmt.Sprint("r", rep)), gd, 16)
+			b, _ := json.Marshal(rs)
+			outs[rep] = string(b) + fmt.Sprint(len(vs))
+		}
+		if outs[0] != outs[1] {
+			fmt.Printf("selftest determinism: seqsim %s: two executions of 40 shapes differ: %s\n", prop, firstDiff(strings.ReplaceAll(outs[0], "},{", "},\n{"), strings.ReplaceAll(outs[1], "},{", "},\n{")))
+			fails++
+		} else {
+			fmt.Printf("selftest determinism: seqsim %s: 40 shapes executed twice, identical (%d bytes of results)\n", prop, len(outs[0]))
+		}
+		cleanup()
+	}
 	for _, prop := range []string{"C01", "C07", "C08", "C10", "C11", "C12", "C09"} {
 		ctx := &genCtx{prop: prop, tier: "quick", bins: buildGenBinaries(), kfs: loadKnownFindings()}
 		fn := genCases[prop]
